@@ -375,7 +375,8 @@ qb_log_blackbox_print_from_file(const char *bb_filename)
 		ptr += sizeof(uint32_t);
 
 		/* message content */
-		len = qb_vsnprintf_deserialize(message, QB_LOG_MAX_LEN, ptr);
+		len = qb_vsnprintf_deserialize_n(message, QB_LOG_MAX_LEN, ptr,
+						 (chunk + bytes_read) - ptr);
 		assert(len > 0);
 		len--;
 		while (len > 0 && (message[len] == '\n' || message[len] == '\0')) {
